@@ -36,6 +36,8 @@ fn main() {
         "snap-replay" => snap::cmd_replay(&args[2], &args[3]),
         "expr-replay" => expr::cmd_replay(&args[2], &args[3]),
         "expr-e2e" => expr_e2e::cmd_replay(&args[2], &args[3]),
+        // the textual form of the two public keys the specs call KED / KP256
+        "key-text" => println!("{}", serde_json::json!({"KED": keys::keypair("PK", "ed").public().print(), "KP256": keys::keypair("PK", "p256").public().print()})),
         "sym-record" => symrec::cmd_record(args[2].parse().unwrap(), &args[3]),
         "tp-replay" => tp::cmd_replay(&args[2], &args[3]),
         "ver-replay" => ver::cmd_replay(&args[2], &args[3]),
